@@ -143,6 +143,11 @@ type Obs struct {
 	SingleRA   int64    `json:"single_ra"`
 	Prim       *int64   `json:"prim"`
 	PrimRA     int64    `json:"prim_ra"`
+	// Find into a slice of maps that already holds one map (a reused destination: gorm appends);
+	// First into such a slice: ErrRecordNotFound?
+	ReusedMaps    []Row `json:"reused_maps"`
+	ReusedMapsRA  int64 `json:"reused_maps_ra"`
+	ReusedFirstNF bool  `json:"reused_first_nf"`
 	ScanMaps   []Row    `json:"scan_maps"`
 	ScanMapsRA int64    `json:"scan_maps_ra"`
 	RowsMaps   []Row    `json:"rows_maps"`
@@ -468,6 +473,22 @@ func run(db *gorm.DB, in Input) (o Obs) {
 		o.ScanMaps = []Row{}
 		for _, m := range ms {
 			o.ScanMaps = append(o.ScanMaps, mapRow(m, "Scan into maps", &o.Errs))
+		}
+		{
+			pre := []map[string]interface{}{{"id": int64(-9), "v": int64(-9)}}
+			r := chain(db, in).Model(&Item{}).Find(&pre)
+			fail("reused_maps", r.Error)
+			o.ReusedMapsRA = r.RowsAffected
+			o.ReusedMaps = []Row{}
+			for _, m := range pre {
+				o.ReusedMaps = append(o.ReusedMaps, Row{asInt(m["id"]), asInt(m["v"])})
+			}
+			pre = []map[string]interface{}{{"id": int64(-9), "v": int64(-9)}}
+			r = chain(db, in).Model(&Item{}).First(&pre)
+			o.ReusedFirstNF = errors.Is(r.Error, gorm.ErrRecordNotFound)
+			if r.Error != nil && !o.ReusedFirstNF {
+				fail("reused_maps_first", r.Error)
+			}
 		}
 		o.RowsMaps = []Row{}
 		rows, err := chain(db, in).Model(&Item{}).Rows()
@@ -930,6 +951,7 @@ func term(in Input, o Obs) string {
 		gORow(o.First), gORow(o.Last), gORow(o.Take),
 		lib.ListOf(o.Batches, gRows), lib.Z(o.BatchesRA),
 		gRows(o.Ptrs), gRows(o.Array), gRows(o.Reused), lib.Z(o.ReusedRA), gORow(o.Single), lib.Z(o.SingleRA), gOZ(o.Prim), lib.Z(o.PrimRA),
+		gRows(o.ReusedMaps), lib.Z(o.ReusedMapsRA), lib.Bool(o.ReusedFirstNF),
 		gRows(o.ScanMaps), lib.Z(o.ScanMapsRA), gRows(o.RowsMaps), gORow(o.FirstMap), gORow(o.LastMap), gORow(o.TakeMap),
 		lib.Z(int64(len(o.Errs))),
 		lib.Z(o.SelCount), lib.Z(o.SelFind), lib.Z(o.SelMaps),
